@@ -270,9 +270,13 @@ def run_case(case: dict) -> dict:
                 res["excluded_by"] = "same-source-two-roles"
                 return res
         if "crosstalk" in excl and known_crosstalk(w, obs, stmts, [cont_ent[c["name"]] for c in case["containers"]]):
-            res["status"] = "excluded"
-            res["excluded_by"] = "crosstalk"
-            return res
+            from ..static_trigger import crosstalk_possible
+
+            if crosstalk_possible(stmts, case["inputs"]):
+                res["status"] = "excluded"
+                res["excluded_by"] = "crosstalk"
+                return res
+            probe(res, "crosstalk_structure_without_static_trigger")
         bound = settle_bound(w)
         steps = [{}] + list(case["history"])
         for si, step in enumerate(steps):
